@@ -173,7 +173,7 @@ def lblock_class(*, persist=False, ainit=False, astop=False, maintask=False, ifv
         ns['stop_async'] = stop_async
     if maintask:
         async def _maintask(self):
-            self._do('maintask')
+            self._do('maintask_begin')
             delay, action = self.cfg.get('maintask', (None, None))
             if delay is None:
                 await asyncio.get_running_loop().create_future()
